@@ -138,9 +138,26 @@ def run(prog: Program, res: Result) -> None:
             any(isinstance(x, ast.Name) and x.id in loopvars for k in n.keywords for x in ast.walk(k.value))
         draws = _may_draw(prog, f0.attr)
         okd = (not draws) or varying
+        # the loop-variant argument must not be able to be None: `_init_agent(None)` draws the position inside the worker
+        none_arg = None
+        if draws and varying and f0.attr == "_init_agent":
+            from ..flow import origin as _origin
+            src = _origin(fi.node, gen.iter) if isinstance(gen.iter, ast.Name) else gen.iter
+            if isinstance(src, (ast.ListComp, ast.GeneratorExp)) and isinstance(n.args[1] if len(n.args) > 1 else None, ast.Name) \
+                    and isinstance(gen.target, ast.Name) and n.args[1].id == gen.target.id:
+                el = src.elt
+                cands = [el.body, el.orelse] if isinstance(el, ast.IfExp) else [el]
+                if any(isinstance(c_, ast.Constant) and c_.value is None for c_ in cands):
+                    none_arg = el
+        if none_arg is not None:
+            okd = False
         # the varying argument must itself be parent-drawn data, not just an index: accept any loop-variant argument
         res.ob(okd, f"{loc} submitted {f0.attr}: may draw RNG={bool(draws)}, per-submission argument={varying}", key + "::stream")
-        if not okd:
+        if not okd and none_arg is not None:
+            res.add(Finding(P, "C11.R4-stream-distinctness", key, loc,
+                            f"the position handed to each submitted _init_agent is `{norm(none_arg, 60)}`, which can be None: the worker "
+                            f"then draws the position itself, and forked workers replay the same random stream (duplicate agents)"))
+        elif not okd:
             res.add(Finding(P, "C11.R4-stream-distinctness", key, loc,
                             f"`{norm(n, 70)}` submits a callable that draws from the global RNG ({draws[0]}) with no per-submission "
                             f"argument: with the fork start method every worker process replays the same stream and the initial "
